@@ -14,7 +14,7 @@ TECHNIQUE = "bounded exhaustive enumeration of codec layouts/values/orders again
 RULE = ("int<->bytes: sizes 0..9 x (all values for size<=2, boundary alphabet above); single fields: every contiguous mask of "
         "width 1..72 at bit alignment 0..7 x offsets {0,1,5} x trailing bytes {0,2} x prior content {00,FF,A5} outside the field "
         "x values (exhaustive up to the tier's width, alphabet above); 2 and 3 non-overlapping fields x all supply orders; blobs "
-        "b/w/dw x lengths 0..4 x offsets, alone and mixed with a bit field; 2 and 3 blobs of every kind combination plus a bit field in every supply order. A case is non-trivial when the value or the prior "
+        "b/w/dw x lengths 0..4 x offsets, alone and mixed with a bit field; 2 and 3 blobs of every kind combination plus a bit field in every supply order; layout entries spelled as lists and as tuples (every single-field case both ways, multi-field layouts mixed), blob kind strings as literals and built at run time. A case is non-trivial when the value or the prior "
         "content is non-zero; distinct = distinct (kind, layout, value, prior, order) tuples.")
 ASSUMPTIONS = [
     "oracle: vf/spec/bits.py (int.from_bytes of the whole buffer, one shift, one mask)",
@@ -105,6 +105,17 @@ def run_case(case, obs=None):
         cv.decode_bits(bytearray(full), {"f": [mask, offset]}, res)
         if res.get("f") != value:
             out.append(("decode_isolation", "decode mask=%#x off=%d of %s -> %r expected %#x" % (mask, offset, full.hex(), res.get("f"), value)))
+        # the same layout entry spelled as a tuple (the module's own annotation allows Tuple[int, int] as well as a list)
+        buf = bytearray(prior)
+        res = {}
+        try:
+            cv.encode_dict({"f": value}, {"f": (mask, offset)}, buf)
+            cv.decode_bits(bytearray(exp), {"f": (mask, offset)}, res)
+        except Exception as e:   # noqa: BLE001
+            res = {"f": "raised %s" % type(e).__name__}
+        if bytes(buf) != exp or res.get("f") != value:
+            out.append(("tuple_entry", "layout entry (mask=%#x, off=%d) as a tuple: encode -> %s (expected %s), decode -> %r (expected %#x)"
+                        % (mask, offset, bytes(buf).hex(), exp.hex(), res.get("f"), value)))
     elif kind == "multi":
         _, flds, order, pat, values, buflen = case
         lay = {}
@@ -115,7 +126,7 @@ def run_case(case, obs=None):
             endbit = startbit + width            # one past
             n = (endbit + 7) // 8 - byte
             shift = (byte + n) * 8 - endbit
-            lay["f%d" % i] = [((1 << width) - 1) << shift, byte]
+            lay["f%d" % i] = [((1 << width) - 1) << shift, byte] if i % 2 == 0 else (((1 << width) - 1) << shift, byte)
             orc["f%d" % i] = (byte, msb, width)
         prior = make_prior(buflen, PRIORS[pat], list(orc.values()))
         exp = prior
@@ -178,11 +189,11 @@ def run_case(case, obs=None):
             n = length * unit[bk]
             if i % 2:
                 bk = bk.encode("ascii").decode("ascii")     # run-time string, equal but not identical to the literal
-            lay["k%d" % i] = (bk, pos, length)
+            lay["k%d" % i] = (bk, pos, length) if i % 2 == 0 else [bk, pos, length]
             data["k%d" % i] = bytearray((0x21 * (i + 1) + j) & 0xFF for j in range(n))
             exp_parts.append((pos, bytes(data["k%d" % i])))
             pos += n + 1                              # one untouched byte between fields
-        lay["f"] = [0x0FF0, pos]
+        lay["f"] = (0x0FF0, pos)
         data["f"] = 0xA5
         buflen = pos + 2 + 3
         prior = bytearray(make_prior(buflen, PRIORS[pat], [(pos, 3, 8)]))
